@@ -675,6 +675,23 @@ impl Scenario for C04 {
                 b.push(Step::Deliver { tok, node, key: vkey, purpose: None, faults: vec![], pk: None, fk: Some(fk2), validator: VSpec::None, alias: false, now_ns: now, pair_with: None });
             }
         }
+        // long texts that are wrong in very many places at once (a file of the wrong kind, a token wrapped
+        // at 76 columns, the standard alphabet with padding): 2^15 and 2^16 four-character groups that
+        // each hold a character outside the alphabet, one fewer and one more, then a clean last group
+        if len % 100 == 7 {
+            for (node, bk) in nodes.iter().enumerate() {
+                let _ = node;
+                for art in [Artifact::TokLocal, Artifact::TokPublic, Artifact::KeyLocal, Artifact::PieLocal, Artifact::PwLocal, Artifact::Seal] {
+                    let ver = if art.is_token() { "v" } else { "k" };
+                    for group in ["====", "A A ", "AA\r\n", "@@@@", "AAA\u{e9}"] {
+                        for n in [32767usize, 32768, 65535, 65536, 65537] {
+                            let text = format!("{ver}{f}{}{}AAAA", art.header(), group.repeat(n));
+                            b.push(Step::Offer { text: TextRef::Lit { text }, faults: vec![], reader: *bk, artifact: art, expect: Some(false), why: "C09:noncanonical-base64-accepted:tens of thousands of malformed groups".into() });
+                        }
+                    }
+                }
+            }
+        }
         // claims documents whose members have values of every JSON type and numeric shape, and arrays shaped
         // like the claims: decoded directly, as the payload of a conforming token read as RegisteredClaims,
         // and as a typed (JSON) footer
